@@ -2,7 +2,7 @@
 From Coq Require Import NArith ZArith List Bool String.
 From ZV.Codec Require Import Bytes XXH64 Fse Huf Block Frame.
 From ZV.Gen Require Import Gen_Tables Gen_C03.
-From ZV.Safety Require Import DDictHashSet DDictHashSetProofs RTotal ROutput RBound RCopy NoProgress NoProgressProofs Witnesses Consts LitBuffer LitBufferProofs RingBuffer RingBufferProofs.
+From ZV.Safety Require Import DDictHashSet DDictHashSetProofs RTotal ROutput RBound RCopy REntropy NoProgress NoProgressProofs Witnesses Consts LitBuffer LitBufferProofs RingBuffer RingBufferProofs.
 Import ListNotations.
 Local Open Scope N_scope.
 
@@ -179,6 +179,20 @@ Theorem C03_R_expansion_bound : forall cfg d src out items,
   R cfg d src = Ok (out, items) -> 3 * lenN out <= 131072 * lenN src.
 Proof. exact R_expansion_bound. Qed.
 Print Assumptions C03_R_expansion_bound.
+
+(* ---- what the entropy-table readers guarantee to the table builders (checked on HUF_readStats / FSE_readNCount per run) ---- *)
+Theorem C03_huffman_description_postconditions : forall maxLog src all log used,
+  read_huf_weights maxLog src = Ok (all, log, used) ->
+  1 <= log /\ log <= maxLog /\ Forall (fun w => w <= maxLog) all /\ weight_sum all = 2 ^ log /\
+  N.of_nat (List.length all) <= 256.
+Proof. exact read_huf_weights_post. Qed.
+Print Assumptions C03_huffman_description_postconditions.
+
+Theorem C03_fse_description_postconditions : forall maxSV maxLog src log counts used,
+  read_ncount maxSV maxLog src = Ok (log, counts, used) ->
+  5 <= log /\ log <= maxLog /\ count_sum counts = Z.of_N (2 ^ log) /\ lenN counts <= maxSV + 1 /\ used <= lenN src.
+Proof. exact read_ncount_post. Qed.
+Print Assumptions C03_fse_description_postconditions.
 
 (* ---- necessity witnesses: every check has a byte string that stops R at that check ---- *)
 Theorem C03_witnesses_rejected_at_site :
